@@ -1,4 +1,42 @@
-//! @module dht_records::verif_proofs
-//! Kani contracts and proof harnesses for this module (child module, cfg(kani) only).
+//! @module placement::dht_records::verif_proofs
+//! C05 record size guards: native failing-input search (see network_proofs.rs for the role of the
+//! search; the deciding engine is the Verus unit `inbound`).
 #![allow(unused_imports)]
 use super::*;
+
+#[cfg(test)]
+mod search {
+    use super::*;
+
+    #[test]
+    fn verif_search_c05_records() {
+        // every length around the 512-byte limit, and some far above it (up to 128 KiB)
+        for len in (0usize..=520).chain([1000, 4096, 65_536, 131_072]) {
+            let bytes: Vec<u8> = (0..len).map(|i| (i * 31 + 7) as u8).collect();
+            let r = std::panic::catch_unwind(|| DhtRecord::deserialize(&bytes).is_ok());
+            match r {
+                Err(_) => panic!("VERIF-SEARCH-HIT C05/record/returns_normally len={}", len),
+                Ok(true) if len > 512 => panic!("VERIF-SEARCH-HIT C05/record/oversized_record_is_refused len={}", len),
+                Ok(_) => {}
+            }
+            // a record above the limit must be refused whatever its content: also try all-zero bytes
+            if len > 512 && DhtRecord::deserialize(&vec![0u8; len]).is_ok() {
+                panic!("VERIF-SEARCH-HIT C05/record/oversized_record_is_refused len={} (zero bytes)", len);
+            }
+        }
+        // serialise: Ok(bytes) never longer than 512, for data pointers of growing size
+        // (a data pointer with n ticket ids encodes to about 33*n + 70 bytes)
+        for n in 0usize..=40 {
+            let rec = DhtRecord {
+                key: SerializableHash([7u8; 32]),
+                data: DhtRecordData::DataPointer(DataPointer { cid: SerializableHash([1u8; 32]), placement_ticket_ids: vec![SerializableHash([2u8; 32]); n], ts: 0 }),
+                ttl: 1,
+            };
+            if let Ok(b) = rec.serialize() {
+                if b.len() > 512 {
+                    panic!("VERIF-SEARCH-HIT C05/record/serialized_record_is_at_most_512_bytes len={}", b.len());
+                }
+            }
+        }
+    }
+}
